@@ -80,6 +80,10 @@ m('revert-F13-inherited-custom-adapt-flag', 'C14', 'a sub-interface with interfa
   [(I, "            if (\n                '__adapt__' in needs_custom_class or\n                getattr(cls, '_CALL_CUSTOM_ADAPT', None)\n            ):", "            if '__adapt__' in needs_custom_class:")],
   ['C14', 'C10'])
 
+m('revert-F11e-providedBy-swallows', 'C10', 'C providedBy clears every exception from __provides__ on the fallback path (defect F11e)',
+  [(C, "    result = PyObject_GetAttr(ob, str__provides__);\n    if (result == NULL) {\n        if (!PyErr_ExceptionMatches(PyExc_AttributeError)) {\n            /* Propagate non-AttributeErrors */\n            Py_DECREF(cls);\n            return NULL;\n        }\n",
+       "    result = PyObject_GetAttr(ob, str__provides__);\n    if (result == NULL) {\n")])
+
 def sh(*a, **k):
     return subprocess.run(a, capture_output=True, text=True, **k)
 
